@@ -12,6 +12,7 @@ import (
 	"verif/harness/internal/core"
 	"verif/harness/internal/mon"
 	"verif/harness/internal/sched"
+	"verif/harness/internal/vconn"
 )
 
 // C01 - At most one callback of a worker group executes at any instant.
@@ -58,6 +59,8 @@ func concBatches(seed int64, tier core.Tier, prop string) []core.Batch {
 	}
 	for rep := 0; rep < tierPick(tier, 1, 6); rep++ {
 		for _, w := range []int{1, 4} {
+			bs = append(bs, core.Batch{Name: fmt.Sprintf("directed-restart-during-drain-w%d-r%d", w, rep), TimeoutS: 120,
+				Params: core.Params(concCfg{Workers: w, InCh: 16, Directed: "restart-during-drain", Ops: tierPick(tier, 6, 12)})})
 			bs = append(bs, core.Batch{Name: fmt.Sprintf("directed-expiry-during-shutdown-w%d-r%d", w, rep), TimeoutS: 120,
 				Params: core.Params(concCfg{Workers: w, InCh: 16, Directed: "expiry-during-shutdown", Ops: tierPick(tier, 6, 12)})})
 		}
@@ -112,6 +115,10 @@ func init() {
 func concRun(c *core.Ctx, b core.Batch, prop string) {
 	var cfg concCfg
 	json.Unmarshal(b.Params, &cfg)
+	if cfg.Directed == "restart-during-drain" {
+		concRestartDuringDrain(c, cfg, prop)
+		return
+	}
 	if cfg.Directed == "expiry-during-shutdown" {
 		concExpiryDuringShutdown(c, cfg, prop)
 		return
@@ -148,6 +155,101 @@ func concRun(c *core.Ctx, b core.Batch, prop string) {
 		e.replyOrder(e.rig.C.Log())
 	}
 	c.Sample(map[string]interface{}{"config": cfg, "callbacks": len(e.execs)})
+}
+
+// concRestartDuringDrain: while Shutdown is still waiting for a running callback of
+// group G, another goroutine (a supervisor) keeps calling Serve until it is accepted,
+// and then submits callbacks for G. They must not run while the old callback of G is
+// still executing (the stop/start part of a start/stop/start history).
+func concRestartDuringDrain(c *core.Ctx, cfg concCfg, prop string) {
+	rigInstall()
+	for round := 0; round < cfg.Ops; round++ {
+		occ := mon.NewOccupancy(func(group, first, second string) {
+			if prop == "C01" {
+				c.Violation("C01/overlap:directed-"+cfg.Directed, fmt.Sprintf("callbacks %s and %s of group %q overlapped in directed scenario %s", first, second, group, cfg.Directed), cfg)
+			}
+		})
+		rg := newRig("svc", func(s *res.Service) {
+			s.SetWorkerCount(cfg.Workers)
+			s.Handle("res.$id", res.GetModel(func(r res.ModelRequest) { r.Model(nil) }))
+		})
+		if err := rg.start(); err != nil {
+			c.Inconclusive("start: " + err.Error())
+			return
+		}
+		G := "svc.res.1"
+		inside, release, finished := make(chan struct{}), make(chan struct{}), make(chan struct{})
+		if err := rg.S.With(G, func(r res.Resource) {
+			occ.Enter(G, "with:old-run", false)
+			close(inside)
+			<-release
+			time.Sleep(2 * time.Millisecond)
+			occ.Exit(G)
+			close(finished)
+		}); err != nil || !waitCh(inside, 10*time.Second) {
+			c.Inconclusive("restart-during-drain: With callback did not start")
+			return
+		}
+		stopped := make(chan struct{})
+		go func() { rg.S.Shutdown(); close(stopped) }()
+		// the supervisor: serve again as soon as the service lets it
+		served := make(chan struct{})
+		newRunDone := make(chan struct{})
+		var newRuns int32
+		go func() {
+			defer close(newRunDone)
+			deadline := time.Now().Add(60 * time.Millisecond)
+			for time.Now().Before(deadline) {
+				conn := vconn.New()
+				started := make(chan struct{})
+				var once sync.Once
+				rg.S.SetOnServe(func(*res.Service) { once.Do(func() { close(started) }) })
+				ret := make(chan error, 1)
+				go func() { ret <- rg.S.Serve(conn) }()
+				select {
+				case <-started:
+					atomic.AddInt32(&newRuns, 1)
+					close(served)
+					// callbacks of G in the new run, while the old callback may still be running
+					for k := 0; k < 4; k++ {
+						k := k
+						rg.S.With(G, func(res.Resource) {
+							occ.Enter(G, fmt.Sprintf("with:new-run-%d", k), false)
+							time.Sleep(300 * time.Microsecond)
+							occ.Exit(G)
+						})
+					}
+					time.Sleep(5 * time.Millisecond)
+					rg.S.Shutdown()
+					<-ret
+					return
+				case err := <-ret:
+					_ = err // refused: not stopped yet
+					time.Sleep(200 * time.Microsecond)
+				case <-time.After(5 * time.Second):
+					return
+				}
+			}
+		}()
+		// hold the old callback for a while; a correct service refuses Serve all that time
+		select {
+		case <-served:
+		case <-time.After(25 * time.Millisecond):
+		}
+		time.Sleep(3 * time.Millisecond)
+		close(release)
+		if !waitCh(finished, 10*time.Second) || !waitCh(stopped, 25*time.Second) || !waitCh(newRunDone, 25*time.Second) {
+			c.Inconclusive("restart-during-drain: did not complete")
+			return
+		}
+		// the supervisor may have been accepted only after the drain: stop that run as well
+		rg.S.Shutdown()
+		c.Eval(1)
+		c.Obs("restart_during_drain_rounds", 1)
+		c.Obs("restart_during_drain_new_runs", int64(atomic.LoadInt32(&newRuns)))
+		c.Distinct(fmt.Sprintf("%s/w%d/%d", cfg.Directed, cfg.Workers, round))
+	}
+	c.Sample(map[string]interface{}{"directed": cfg.Directed, "workers": cfg.Workers, "rounds": cfg.Ops})
 }
 
 // concExpiryDuringShutdown: a query event of group G expires while Shutdown is
